@@ -161,6 +161,23 @@ case("reply_payload_type_mismatch", "merged reply methods with different payload
               + "    #[sv::msg(reply, handlers=[h], reply_on=error)]\n    fn on_err(&self, _ctx: ReplyCtx, error: String, p: String) -> StdResult<Response> { Ok(Response::new()) }\n", attrs=R),
      contract(NEW + INST + "    #[sv::msg(reply, handlers=[h], reply_on=success)]\n    fn on_ok(&self, _ctx: ReplyCtx, p: u32) -> StdResult<Response> { Ok(Response::new()) }\n"
               + "    #[sv::msg(reply, handlers=[h], reply_on=error)]\n    fn on_err(&self, _ctx: ReplyCtx, error: String, p: u32) -> StdResult<Response> { Ok(Response::new()) }\n", attrs=R))
+IDS = "pub mod orders {\n    #[sylvia::cw_schema::cw_serde]\n    pub struct Id(pub u64);\n}\npub mod accounts {\n    #[sylvia::cw_schema::cw_serde]\n    pub struct Id(pub String);\n}\npub struct Contract;"
+
+
+def payload_mismatch(name, what, t_ok, t_err, second=False):
+    """merged success/error methods whose payload types differ in a way a sloppy comparison would miss; twin: the same type twice"""
+    lead = "n: u8, " if second else ""
+    def prog(a, b, mark):
+        return contract(NEW + INST + f"    #[sv::msg(reply, handlers=[h], reply_on=success)]\n    fn on_ok(&self, _ctx: ReplyCtx, {lead}p: {a}) -> StdResult<Response> {{ Ok(Response::new()) }}" + (E if mark else "") + "\n"
+                        + f"    #[sv::msg(reply, handlers=[h], reply_on=error)]\n    fn on_err(&self, _ctx: ReplyCtx, error: String, {lead}p: {b}) -> StdResult<Response> {{ Ok(Response::new()) }}\n", attrs=R, struct=IDS)
+    case(name, what, prog(t_ok, t_err, True), prog(t_ok, t_ok, False))
+
+
+payload_mismatch("reply_payload_homonym_mismatch", "merged reply methods whose payload types are different types with the same final path segment (orders::Id / accounts::Id)", "orders::Id", "accounts::Id")
+payload_mismatch("reply_payload_homonym_second_mismatch", "the same at the second payload position", "orders::Id", "accounts::Id", second=True)
+payload_mismatch("reply_payload_generic_arg_mismatch", "merged reply methods whose payload types differ only in a generic argument (Option<u32> / Option<String>)", "Option<u32>", "Option<String>")
+payload_mismatch("reply_payload_nested_homonym_mismatch", "payload types differing only in a nested homonymous argument (Vec<orders::Id> / Vec<accounts::Id>)", "Vec<orders::Id>", "Vec<accounts::Id>")
+payload_mismatch("reply_payload_tuple_mismatch", "payload types that are tuples differing in one element", "(u32, orders::Id)", "(u32, accounts::Id)")
 case("reply_payload_count_mismatch", "merged reply methods with a different number of payload parameters",
      contract(NEW + INST + "    #[sv::msg(reply, handlers=[h], reply_on=success)]\n    fn on_ok(&self, _ctx: ReplyCtx, p: u32, q: u32) -> StdResult<Response> { Ok(Response::new()) }" + E + "\n"
               + "    #[sv::msg(reply, handlers=[h], reply_on=error)]\n    fn on_err(&self, _ctx: ReplyCtx, error: String, p: u32) -> StdResult<Response> { Ok(Response::new()) }\n", attrs=R),
